@@ -1,5 +1,5 @@
 """Generic property runner: jobs -> engine -> native replay of counterexamples and witnesses -> evidence."""
-import json, os, sys, time, random
+import json, os, re, sys, time, random
 from driver import *
 
 
@@ -14,11 +14,12 @@ def S(*names):
 BASE = H("base.go")
 
 
-JOB_TIMEOUT_S = float(os.environ.get("VERIF_JOB_TIMEOUT", "900"))
+JOB_TIMEOUT_S = float(os.environ.get("VERIF_JOB_TIMEOUT", "0") or 0)  # 0: per tier (quick 300 s, thorough 2400 s)
+GROUP_DEADLINE_S = {"quick": 900.0, "thorough": 10800.0, "calibrate": 7200.0}
 
 
 def job(entry, args=(), **kw):
-    j = {"entry": entry, "args": list(args), "timeout_s": JOB_TIMEOUT_S}
+    j = {"entry": entry, "args": list(args)}
     j.update(kw)
     return j
 
@@ -54,14 +55,29 @@ class Check:
         self.known = load_known()
         self.nat = None
         self._nats = {}
+        self.unavailable = []
+        self.skipped_confirmations = 0
 
     # -- running
     def run_group(self, name, overlays, jobs, expect_labels=(), witness_replay=True, confirm=None, deadline_s=None):
         for i, j in enumerate(jobs):
-            j.setdefault("id", "%s#%d" % (name, i))
             j["id"] = "%s#%d" % (name, i)
+            j.setdefault("timeout_s", JOB_TIMEOUT_S or (300.0 if self.tier == "quick" else 2400.0))
+        if deadline_s is None:
+            deadline_s = GROUP_DEADLINE_S.get(self.tier, 900.0)
         log("[%s %s] group %s: %d jobs" % (self.prop, self.tier, name, len(jobs)))
-        rs = run_jobs(overlays, jobs, deadline_s=deadline_s)
+        try:
+            rs = run_jobs(overlays, jobs, deadline_s=deadline_s)
+        except Inconclusive as e:
+            names = re.findall(r"undefined: ([A-Za-z_][A-Za-z0-9_.]*)", str(e))
+            own = [n for n in names if re.match(r"^(v|spec|sh|H)[A-Z_0-9]", n)]
+            if "could not load the package with the harness overlay" in str(e) and names and not own:
+                # a unit-level harness refers to an internal identifier that no longer exists (refactoring): this layer
+                # drops out; the remaining layers still decide the property (DESIGN.md 3.1)
+                self.unavailable.append("%s: %s" % (name, str(e)[:600]))
+                log("[%s %s] layer %s unavailable: %s" % (self.prop, self.tier, name, str(e)[:300]))
+                return []
+            raise
         self.groups.append((name, overlays, rs))
         labels = {}
         for r in rs:
@@ -116,6 +132,9 @@ class Check:
                         self.validated_mismatch.append({"job": r["entry"], "args": r["args"], "input": x["text"], "engine_obs": x.get("obs"), "native": n})
                 else:
                     ok = confirm(x, n, r) if confirm else engine_to_native_ok(x, n)
+                    if ok is None:
+                        self.skipped_confirmations += 1  # expensive native confirmation capped; a confirmed one of the same kind is reported
+                        continue
                     rec = {"entry": r["entry"], "args": r["args"], "kind": x["kind"], "msg": x["msg"], "input": x["text"], "vals": vals_of(x["inputs"]),
                            "count": x["count"], "native": {k: n.get(k) for k in ("outcome", "msg", "site")}, "pc": x.get("pc", "")}
                     if ok:
@@ -195,7 +214,11 @@ class Check:
             "trusted_base": list(trusted) or ["golang.org/x/tools/go/ssa v0.29.0 as the semantics of the source", "z3 4.8.12", "the engine's models of strings.* (DESIGN.md 3.5)"],
             "checker_cmd": "./check %s %s" % (self.prop, self.tier),
         }
+        cov["unavailable_layers"] = self.unavailable
+        cov["counterexamples_not_replayed_because_capped"] = self.skipped_confirmations
         cov.update(self.extra_cov)
+        if self.unavailable and not self.groups:
+            self.inconclusive.append("no harness layer could be loaded: " + "; ".join(self.unavailable)[:800])
         wall = time.time() - self.t0
         viol_n = len(self.violations)
         write_evidence(self.prop, self.tier, self.seed, level, cov, self.assumptions, wall, viol_n)
